@@ -598,3 +598,65 @@ def _symdiff_post(e):
 CONTRACTS.append(Contract(
     M + ":IntegerSet.symmetric_difference", "C33", label=M + ":IntegerSet.symmetric_difference (operands of any length; callees by contract)",
     modules=[M], setup=_setup_symdiff, make=_mk_symdiff, requires=_alg_pre, ensures=_symdiff_post))
+
+
+# ---- merge_overlapping_intervals for input lists of ANY length (generator: yields become appends to a ghost list) --------------
+def _merge_on_yield(fg, value, c, old):
+    fg.Y.append(value)
+
+
+def _mk_merge(c, g):
+    R = MD.SymPairSeq("R")
+    x0 = make_value("int", "x0", c)
+    return {"args": [R], "env": {"R": R, "x0": x0}, "inputs": {"x0": x0}}
+
+
+def _merge_pre(e):
+    R = e.R
+    a, b = z3.Ints("mp!a mp!b")
+    return [z3.ForAll([a], z3.Implies(z3.And(a >= 0, a < R.n), z3.Select(R.lo, a) <= z3.Select(R.hi, a))),
+            z3.ForAll([a, b], z3.Implies(z3.And(a >= 0, a < b, b < R.n), z3.Select(R.lo, a) <= z3.Select(R.lo, b)))]
+
+
+def _y_canonical(Y):
+    return [(n, g) for n, g in [(x[0].replace("result", "yielded ranges"), x[1]) for x in _canonical_obligations(Y)]]
+
+
+def _merge_inv(e):
+    R = e.old.R
+    x0 = as_z3_int(e.old.x0)
+    Y = e.fg.Y
+    k = as_z3_int(e.it0__.pos) + 1          # index in `ranges` of the next element to look at
+    r0, r1 = as_z3_int(e.r[0]), as_z3_int(e.r[1])
+    a = z3.Int("mi!a")
+    q = z3.Int("mi!q")
+    return _y_canonical(Y) + [
+        ("r is a non-empty range", mkb(r0 <= r1)),
+        ("1 <= next index <= len(ranges)", mkb(z3.And(k >= 1, k <= R.n))),
+        ("every yielded range ends at least two below r", mkb(z3.ForAll([a], z3.Implies(z3.And(a >= 0, a < Y.n), z3.Select(Y.hi, a) + 1 < r0)))),
+        ("r starts at or before every range still to come", mkb(z3.ForAll([q], z3.Implies(z3.And(q >= k, q < R.n), r0 <= z3.Select(R.lo, q))))),
+        ("yielded ranges and r => x0 in the ranges looked at so far", mkb(z3.Implies(z3.Or(MD.in_view(x0, Y), z3.And(r0 <= x0, x0 <= r1)), MD.in_view(x0, R, 0, k)))),
+        ("x0 in the ranges looked at so far => in a yielded range or in r", mkb(z3.Implies(MD.in_view(x0, R, 0, k), z3.Or(MD.in_view(x0, Y), z3.And(r0 <= x0, x0 <= r1))))),
+    ]
+
+
+def _merge_post(e):
+    Y = e.fg.Y
+    x0 = e.old.x0
+    return _y_canonical(Y) + [
+        ("x0 in a yielded range => x0 in an input range (arbitrary integer x0)", mkb(z3.Implies(MD.in_view(x0, Y), MD.in_view(x0, e.old.R)))),
+        ("x0 in an input range => x0 in a yielded range (arbitrary integer x0)", mkb(z3.Implies(MD.in_view(x0, e.old.R), MD.in_view(x0, Y))))]
+
+
+def _havoc_pair(cur, c, name):
+    return (SymInt(z3.Int(c.fresh_name(name + ".lo"))), SymInt(z3.Int(c.fresh_name(name + ".hi"))))
+
+
+CONTRACTS.append(Contract(
+    M + ":merge_overlapping_intervals", "C33", label=M + ":merge_overlapping_intervals (input of any length)", modules=[M],
+    make=_mk_merge, requires=_merge_pre, ensures=_merge_post,
+    fghost_init=lambda old: {"Y": MD.SymPairList.empty("Y")}, on_yield=_merge_on_yield,
+    loops={0: Loop(havoc={"r": ("object", _havoc_pair), "it0__": ("object", MD.havoc_pair_iter)},
+                   fghost_havoc={"Y": ("object", lambda cur, c, name: MD.SymPairList(name, c))},
+                   invariant=_merge_inv,
+                   decreases=lambda e: mk(e.it0__.seq.n - as_z3_int(e.it0__.pos)))}))
